@@ -204,6 +204,10 @@ INVALID = {
 }
 
 
+# families whose nesting is by indentation, not by brackets: finding F18a (diagnostic pass over nested *brackets*) never applies to them
+BLOCK_FAMILIES = {"blocks", "while_blocks", "with_items_nested", "def_nested", "try_blocks", "for_blocks", "class_blocks", "match_blocks"}
+
+
 def doubling_verdict(series):
     """series: list of (n, ops). violation iff two consecutive doublings exceed RATIO with ops >= MIN_OPS"""
     bad = 0
@@ -268,7 +272,7 @@ def run_family(acc, name, variant, sizes):
         acc.sample({"family": name, "variant": variant, "series": series[-4:], "worst_ratio": round(worst, 2), "outcome": outcome})
     if viol:
         detail = {"series_n_ops": series, "steps": steps_series, "worst_ratio": round(worst, 2)}
-        if variant != "valid" and outcome == "syntax" and FAMILIES[name][1] == "nest":
+        if variant != "valid" and outcome == "syntax" and FAMILIES[name][1] == "nest" and name not in BLOCK_FAMILIES:
             acc.finding_candidates = getattr(acc, "finding_candidates", [])
             acc.seen("superlinear_invalid_nesting", f"{name}/{variant}")
             acc.count("f18a_candidates")
@@ -305,6 +309,8 @@ def plan(tier, seed):
             variants = rnd2.sample(variants, 3)
             if "double_eq" not in variants and name in ("paren", "list", "call"):
                 variants.append("double_eq")
+            if name in BLOCK_FAMILIES:
+                variants = list(dict.fromkeys(variants + ["extra_token", "bad_target"]))  # errors without a dedicated diagnostic
         for v in variants:
             items.append((name, v))
     rnd.shuffle(items)
